@@ -615,6 +615,8 @@ def wrap_array_func(func):
 
 @wrap_array_func
 def py_array_index(array, index):
+    if isinstance(index, int) and index < 0:
+        return None  # the absolute position was computed as length - k: the item lies before the start of the array
     try:
         return array[index]
     except IndexError:
